@@ -432,12 +432,89 @@ func C13() *sim.Check {
 		return nil
 	}
 
+	// write-alignment: a writer that collects its output into blocks fails (or
+	// forgets to check) where a block boundary meets the end of the output or
+	// the start of a section.  One fixed value per kind, its length swept byte by
+	// byte through a padded text field, so that every alignment of every later
+	// boundary relative to any block size up to the sweep length occurs; faults
+	// at the first two and the last four write calls of each length.
+	alignBase := func() (*afm.Metrics, *type1.Font) {
+		t := sim.ReplayTape([]uint32{3, 1, 4, 1, 5, 9, 2, 6, 5, 3, 5, 8, 9, 7, 9, 3, 2, 3, 8, 4, 6})
+		m := gen.GenMetrics(t, 24)
+		for i := 0; len(m.Glyphs) < 60; i++ {
+			m.Glyphs[fmt.Sprintf("pad%d", i)] = &afm.GlyphInfo{WidthX: float64(300 + i)}
+		}
+		f := gen.GenFont(sim.ReplayTape([]uint32{2, 7, 1, 8, 2, 8, 1, 8, 2, 8, 4, 5, 9}), 12)
+		if f.FontInfo == nil {
+			f.FontInfo = &type1.FontInfo{}
+		}
+		return m, f
+	}
+	const alignKinds = 6 // metrics, 4 font formats, WritePDF
+	alignLens := func(tier string) int {
+		if tier == "thorough" {
+			return 4400
+		}
+		return 1100
+	}
+	align := &sim.Batch{Name: "write-alignment", Quick: 4400 + 5*1100, Thorough: 6 * 4400, Enumerated: true}
+	align.Run = func(c *sim.RunCtx) *sim.Outcome {
+		// metrics get the long sweep in both tiers (few, cheap write calls once a
+		// writer buffers; one line per call on the tree as pinned)
+		kind, L := 0, c.Index
+		if c.Index >= 4400 {
+			n := alignLens(c.Tier)
+			kind, L = 1+(c.Index-4400)/n, (c.Index-4400)%n
+		}
+		if kind >= alignKinds {
+			return nil
+		}
+		m, f := alignBase()
+		pad := strings.Repeat("x", L)
+		var tg writeTarget
+		switch kind {
+		case 0:
+			m.FullName = "P" + pad
+			tg = writeTarget{fmt.Sprintf("Metrics.Write(60 glyphs, FullName of %d bytes)", L+1), func(w *sim.SimWriter) error { return m.Write(w) }}
+		case 5:
+			f.FontInfo.FullName = "P" + pad
+			tg = writeTarget{fmt.Sprintf("Font.WritePDF(FullName of %d bytes)", L+1), func(w *sim.SimWriter) error { _, _, err := f.WritePDF(w); return err }}
+		default:
+			f.FontInfo.FullName = "P" + pad
+			format := gen.FontFormats[kind-1]
+			tg = writeTarget{fmt.Sprintf("Font.Write(format %d, FullName of %d bytes)", format, L+1), func(w *sim.SimWriter) error {
+				return f.Write(w, &type1.WriterOptions{Format: format})
+			}}
+		}
+		w0 := sim.NewSimWriter(sim.WFault{})
+		if err := tg.write(w0); err != nil {
+			c.St.Inc("alignment_targets_outside_the_writers_domain")
+			return nil
+		}
+		W := w0.Calls
+		c.St.Inc("alignment_lengths")
+		seen := map[int]bool{}
+		for _, i := range []int{0, 1, W - 4, W - 3, W - 2, W - 1} {
+			if i < 0 || i >= W || seen[i] {
+				continue
+			}
+			seen[i] = true
+			for _, k := range []sim.WFaultKind{sim.WFailOnce, sim.WShort, sim.WFailFrom} {
+				if out := oneWriteFault(tg, sim.WFault{Kind: k, At: i}, c.St, c.Explain); out != nil {
+					return out
+				}
+				c.St.Inc("write_fault_runs")
+			}
+		}
+		return nil
+	}
+
 	return &sim.Check{
 		Prop: "C13", Harness: "h_fault", Level: "fault_enumeration",
-		Rule:        "read-faults: for a drawn input (program, CMap, font in 4 formats / re-laid-out, AFM, PFB) and base chunking, a persistent fault (with and without data arriving in the failing call) a transient one-shot fault, and a one-shot error arriving together with valid bytes (asserted where a fault-free probe run with identical chunking shows the library comes back for more input; not for io.ReadFull-based consumers) are injected at offsets 0,1,2,3,len-2..len, every structural boundary +-2 and 24 random offsets; read-faults-every-offset does the same at EVERY offset 0..len of inputs <= 4096 bytes; seek-faults fails Seek call #0..#3 of the seekable type1.Read path; truncation cuts complete single-font / single-CMap files at every offset (thorough; sampled + boundaries in quick for files > 600 bytes); write-faults fails one call (fail-once), short-writes one call, fails from a call on, at every write-call index (thorough; all for <= 120 calls, sampled otherwise) and runs out of disk at sampled byte budgets, for Font.Write x 4 formats, Font.WritePDF and Metrics.Write. Oracle: a fault counts as delivered only when a Read/Seek/Write actually returned the injected error with n==0 (reads) or at all (writes); delivered => the public call returns a non-nil error; never a panic, never unbounded reading; truncated file => error or dump equal to the whole file's. distinct_nontrivial = distinct (input hash, fault kind, position) with the fault delivered.",
+		Rule:        "read-faults: for a drawn input (program, CMap, font in 4 formats / re-laid-out, AFM, PFB) and base chunking, a persistent fault (with and without data arriving in the failing call) a transient one-shot fault, and a one-shot error arriving together with valid bytes (asserted where a fault-free probe run with identical chunking shows the library comes back for more input; not for io.ReadFull-based consumers) are injected at offsets 0,1,2,3,len-2..len, every structural boundary +-2 and 24 random offsets; read-faults-every-offset does the same at EVERY offset 0..len of inputs <= 4096 bytes; seek-faults fails Seek call #0..#3 of the seekable type1.Read path; truncation cuts complete single-font / single-CMap files at every offset (thorough; sampled + boundaries in quick for files > 600 bytes); write-faults fails one call (fail-once), short-writes one call, fails from a call on, at every write-call index (thorough; all for <= 120 calls, sampled otherwise) and runs out of disk at sampled byte budgets, for Font.Write x 4 formats, Font.WritePDF and Metrics.Write; write-alignment sweeps the output length of one fixed metrics value and one fixed font byte by byte (0..4400 for metrics, 0..1100 quick / 0..4400 thorough for each font format and WritePDF) and fails / short-writes the first two and the last four write calls at each length. Oracle: a fault counts as delivered only when a Read/Seek/Write actually returned the injected error with n==0 (reads) or at all (writes); delivered => the public call returns a non-nil error; never a panic, never unbounded reading; truncated file => error or dump equal to the whole file's. distinct_nontrivial = distinct (input hash, fault kind, position) with the fault delivered.",
 		Assume:      []string{"the identity and text of the returned error are not checked", "io.ReadFull legitimately drops an error that arrives with the last byte it needed, hence the delivered rule", "multi-CMap files are excluded from the truncation clause (a prefix defining the first CMap is a complete answer to a different question; C17 covers which one is returned)"},
 		RealStub:    map[string]any{"real": []string{"all readers and writers of /repo (unmodified)", "text/template, bufio.Scanner, io.ReadFull, fmt.Fprintf"}, "stub": []string{"io.Reader / io.ReadSeeker (SimReader with fault plan)", "io.Writer (SimWriter with fault plan)"}},
-		Batches:     []*sim.Batch{reads, seeks, trunc, writes, every},
+		Batches:     []*sim.Batch{reads, seeks, trunc, writes, align, every},
 		SimTimeUnit: "simulated Read, Seek and Write calls served to the library", SimTimeCounters: []string{"sim_read_calls", "sim_seek_calls", "sim_write_calls"},
 		Probes: []string{"fired_persistent", "fired_persistent+data", "fired_transient", "fired_transient+data", "fired_seek", "fired_truncate", "fired_fail-once", "fired_short-once", "fired_fail-from", "fired_disk-full",
 			"truncation_gave_error", "truncation_gave_complete_result", "inputs_with_every_offset", "targets_with_every_write_call"},
